@@ -12,7 +12,8 @@
              integer / wide-mask `and` `or`), with and without a weight map, at or above the
              coverage order (every coarse pixel = the reduction over its children, which masks
              the invalid ones) and below it (both maps re-housed first; a coarse pixel without
-             valid child is blank); errors from the headers, the arguments and the dense values.
+             valid child is blank); errors from the headers, the arguments and the dense values;
+    `fracdet` — `fracdet_map`: the exact fraction of valid children of every coarse pixel.
 
   HEADLINE `reachable_dense_multi`: after any such history the world of the protocol and the
   dense world agree (same names, same headers, `m.abs p = d.f p` everywhere), and every line is
@@ -111,7 +112,7 @@ value; an update that GROWS the union into coverage pixel 7, which no input cove
 `upgrade`; reads after every stage; refused calls (`err …`) included.  Then a map `e` at orders
 1 / 2 with a float weight map `wt` valid on the same pixels: `degrade` at the coverage order
 (`mean`, `wmean`, `or`, `std`) and BELOW it (`sum`, `wmean`: both maps are re-housed), refused
-calls (finer target, unknown reduction, `wmean` without weights). -/
+calls (finer target, unknown reduction, `wmean` without weights); `fracdet_map`. -/
 
 /-- the answers of the protocol along a history -/
 def protoAnswers (lines : List String) : List String :=
@@ -166,7 +167,11 @@ def exHistory : List String := [
   "deg e ord=3 red=sum r=d7",                            -- refused: finer
   "deg e ord=1 red=bogus r=d7",                          -- refused: unknown reduction
   "deg e ord=1 red=wmean r=d7",                          -- refused: no weights
-  "deg e ord=1 red=wmean w=a r=d7"                       -- refused: weights of another kind
+  "deg e ord=1 red=wmean w=a r=d7",                      -- refused: weights of another kind
+  "fracdet e r=fd ord=1",
+  "get fd pix=0,1,4,6",
+  "fracdet e r=fd ord=0",                                -- refused: below the coverage order
+  "fracdet e ord=1"                                      -- malformed: no result name
 ]
 
 /-! every line is a plain or family line, every line is decided by the dense views, and the two
